@@ -86,3 +86,61 @@ From Pogreb Require Import ShapeCheck.
 Theorem C04_recovery_runs_alone : open_worker_after_recovery = true.
 Proof. exact shape_open_worker_after_recovery. Qed.
 Print Assumptions C04_recovery_runs_alone.
+
+(* ---- crash DURING A RECOVERY on the PHYSICAL index (Phys.v: bucket files addressed by byte offset, overflow allocation,
+   free list), PhysCrash.v: three layers, phys -- PR --> chain -- st_rel --> flat; the process dies at any
+   event boundary or inside a record write of the operation running on the physical-index database ---- *)
+From Pogreb Require Import Base BaseLemmas Crc Bytes Record RecordProofs Flat Index Spec DB DBInv
+  DBLemmas DBProofsOps DBMeta DBProofsCompact DBProofsRecovery DBProofsCrash DBSim DBRun DBSimExact
+  Bucket Phys PhysProofs PhysDB DBSimSessions PhysCrash.
+Import ListNotations.
+(* the recovering Open itself dies at any point; the next Open recovers the same contents *)
+Theorem C04_crash_during_recovery_on_the_physical_index :
+  forall P seed seed2 (d1 : (@DB.disk phys)) (dp : (@DB.disk pindex)) (df : (@DB.disk flat)) img1,
+
+  params_ok P -> gdisk_rel PR d1 dp -> disk_rel dp df -> DiskOK df -> bac_ok df -> d_lock df = true ->
+  gcrash_image phys_ops d1 (s_trace (fst (db_open phys_ops P seed (closed1 d1)))) img1 ->
+  recovers_unchanged P seed2 true img1 (abs df).
+Proof. exact phys_crash_open_recover. Qed.
+Print Assumptions C04_crash_during_recovery_on_the_physical_index.
+
+(* a recovering Open on any image related to a DiskOK flat image: OOpened true on all three instantiations, invariants, answers *)
+Theorem C04_recovery_of_any_related_image_on_the_physical_index :
+  forall P seed (img1 : (@DB.disk phys)) (imgp : (@DB.disk pindex)) (imgf : (@DB.disk flat)),
+
+  params_ok P -> gdisk_rel PR img1 imgp -> disk_rel imgp imgf ->
+  DiskOK imgf -> bac_ok imgf -> d_lock imgf = true ->
+  exists s2 sp2 sf2,
+    db_open phys_ops P seed (closed1 img1) = (s2, OOpened true) /\
+    db_open chain_ops P seed (closedp imgp) = (sp2, OOpened true) /\
+    db_open flat_ops P seed (closed imgf) = (sf2, OOpened true) /\
+    gst_rel PR s2 sp2 /\ st_rel sp2 sf2 /\ Inv P sf2 /\ MetaOK sf2 /\ s_mem sf2 <> None /\
+    bac_ok (s_disk sf2) /\ meq (abs (s_disk sf2)) (abs imgf) /\
+    phys_open_ok s2 /\ answers P sp2 (abs imgf) /\ answers1 P s2 (abs imgf).
+Proof. exact phys_recover_image. Qed.
+Print Assumptions C04_recovery_of_any_related_image_on_the_physical_index.
+
+
+(* ---- a PROCESS crash in the middle of a CLEAN Open (PowerLoss3.v): the lock file is there, the next Open
+   recovers; contents unchanged, invariants and durability discipline re-established ---- *)
+From Pogreb Require Import Base BaseLemmas Crc Bytes Record RecordProofs Flat Spec DB DBInv DBLemmas
+  DBProofsOps DBMeta DBProofsRecovery DBProofsCompact DBProofsCrash PowerLoss PowerLoss2 PowerLoss3.
+(* Close, then the clean Open is killed after any non-empty prefix of its events, then recovery attempts *)
+Theorem C04_crash_during_a_clean_open :
+  forall P seed cf s1 s2 p q Kr s1' u,
+
+  params_ok P -> XOpen P cf -> DurS u (fst cf) ->
+  db_close flat_ops (clear_trace (fst cf)) = (s1, OOk) ->
+  db_open flat_ops P seed (closed (s_disk s1)) = (s2, OOpened false) ->
+  s_trace s2 = p ++ q -> p <> [] ->
+  rrun P ((fold_left (apply_ev flat_ops)) p (s_disk s1)) Kr s1' ->
+  XOpen P (s1', None) /\
+  s_disk s1' = hrun (CE (s_trace s1) :: CE p :: Kr) (s_disk (fst cf)) /\
+  ceq (cont (s_disk s1')) (cont (s_disk (fst cf))) /\
+  (exists u', hdur2 u (CE (s_trace s1) :: CE p :: Kr) = Some u' /\ DurS u' s1') /\
+  d_lock ((fold_left (apply_ev flat_ops)) p (s_disk s1)) = true /\
+  (forall x, hcrash (s_disk (fst cf)) (CE (s_trace s1) :: CE p :: Kr) x ->
+     DiskOK x /\ bac_ok x /\ ceq (cont x) (cont (s_disk (fst cf))) /\ (d_lock x = true \/ x = s_disk s1)).
+Proof. exact crash_during_clean_open. Qed.
+Print Assumptions C04_crash_during_a_clean_open.
+
